@@ -959,7 +959,10 @@ func opReferenceChangeJournal(ctx context.Context, pc *uint64, interpreter *EVMI
 	}
 
 	u64Ceiling := func(nom, denom uint64) uint64 {
-		return (nom + denom - 1) / denom
+		if nom%denom == 0 {
+			return nom / denom
+		}
+		return nom/denom + 1
 	}
 
 	keccak := func(interpreter *EVMInterpreter, data []byte) []byte {
